@@ -496,7 +496,7 @@ theorem excel_roundtrip (wb : Workbook) (gs : List Grid) (hs : Excel.ShowsAll wb
     (h : Excel.ExcelOK wb = true) : excelToDict (Excel.sheetsOf wb gs) = .ok (toBook wb) :=
   Excel.excel_roundtrip wb gs hs h
 
-/-- text cells that show a text: stripped, without U+00A0 (an interior U+00A0 is shown by *no* cell: F29) -/
+/-- text cells that show a text: stripped, without U+00A0 (`cellText` never delivers a U+00A0, so no cell shows a text holding one; every reader maps it to a space) -/
 theorem text_cell_shows (t : Str) (hs : strip t = t) (hn : nbsp ∉ t) : cellText (.text t) = Md.toOpt t := by
   by_cases ht : t = []
   · subst ht; rfl
@@ -556,5 +556,35 @@ example : Md.MdOK exTyped = true ∧ Csv.CsvOK exTyped = true ∧ Excel.ExcelOK 
 
 example : excelToDict (Excel.sheetsOf exTyped [exTypedGrid]) = .ok (toBook exTyped) :=
   excel_roundtrip exTyped [exTypedGrid] exTyped_shows (by decide)
+
+
+/-- non-vacuity after the repairs of F16 / F29: a workbook with blank rows *inside* the data is inside all
+three guards, and every container reads the same structure with the blank rows kept -/
+def exBlankRows : Workbook :=
+  [⟨"survey".toList, ["type".toList, "name".toList, "label".toList],
+     [["text".toList, "a".toList, "A".toList], [[], [], []], [[]],
+      ["note".toList, "n".toList, "N".toList]]⟩]
+
+def exBlankRowsGrid : Grid :=
+  [[.text "type".toList, .text "name".toList, .text "label".toList],
+   [.text "text".toList, .text "a".toList, .text "A".toList],
+   [.none, .text "  ".toList, .none], [.none],
+   [.text "note".toList, .text "n".toList, .text "N".toList]]
+
+example : Md.MdOK exBlankRows = true ∧ Csv.CsvOK exBlankRows = true ∧ Excel.ExcelOK exBlankRows = true ∧
+    isMarkdownTable (renderMd exBlankRows) = true ∧ isCsv (renderCsv exBlankRows) = true ∧
+    Excel.showsAllB exBlankRows [exBlankRowsGrid] = true := by decide
+
+example : mdToDict (renderMd exBlankRows) = .ok (toBook exBlankRows) ∧
+    csvToDict (renderCsv exBlankRows) = .ok (toBook exBlankRows) ∧
+    excelToDict (Excel.sheetsOf exBlankRows [exBlankRowsGrid]) = .ok (toBook exBlankRows) ∧
+    toDefinition (toBook exBlankRows) = toBook exBlankRows :=
+  container_independent exBlankRows [exBlankRowsGrid] (by decide) (by decide) (by decide) (by decide) (by decide)
+    (Excel.showsAll_of_showsAllB _ _ (by decide))
+
+/-- a U+00A0 inside a value is read as a plain space by the dict container of the readers -/
+example : toBook [⟨"survey".toList, ["label".toList], [[['A', nbsp, 'B']]]⟩] =
+    [(sheetNamesKey, .names ["survey".toList]), ("survey".toList, .rows [[(some "label".toList, "A B".toList)]]),
+     ("survey_header".toList, .header [["label".toList]])] := by decide
 
 end Pyxv.Backends
